@@ -1,11 +1,13 @@
-"""C18 driver, descriptor stream: the low-level CTrait constructors (set_validate tuples — the documented
-`fast_validate` extension point of TraitType —, set_default_value, _set_property, delegate, CTrait(kind),
-comparison_mode, post_setattr) are called with well-formed and malformed descriptors, and every descriptor the
-C code ACCEPTS is then exercised (validate on a value lattice, default_value_for, get/set/del through an object).
-A descriptor may be rejected (ValueError/TypeError) — but an accepted one must never crash the interpreter.
-One family per subprocess: payload {"family": name, "seed": s, "n": trials, "skip": [first components not to try]};
-output {"accepted": k, "tried": n}.
-The last descriptor tried is written to the progress file before it is used.
+"""C18 driver, definition stream: trait definitions built by traits' OWN constructors (the trait types of
+traits.api with their options, Trait(...)-style compounds, Property / Delegate factories) — i.e. descriptors that
+TraitType.as_ctrait can produce — are exercised through the C core: CTrait.validate on a value lattice,
+default_value_for, get / set / del through an object, __getstate__, clone.  Hand-built descriptors passed to the
+low-level CTrait constructors (set_validate tuples, set_default_value, bare CTrait(kind)) are OUTSIDE the property's
+quantifier ("calls through the documented Python API") and are not generated here.
+
+One family per subprocess: payload {"family": name, "seed": s, "n": trials, "progress": path, "skip": [handler class names not to exercise]};
+output {"accepted": definitions built and exercised, "tried": n}.
+The definition being exercised is written to the progress file first, so that a crash names it.
 """
 import logging
 import os
@@ -17,12 +19,18 @@ import dlib  # noqa: E402
 
 logging.disable(logging.CRITICAL)
 
-from traits.api import HasTraits, Int  # noqa: E402
+from traits.api import (Any, Bool, Bytes, CFloat, CInt, CStr, Callable, Complex, Constant, Delegate, DelegatesTo,  # noqa
+                        Dict, Either, Enum, Event, Expression, Float, HasTraits, Instance, Int, List, Map, PrefixList,
+                        PrefixMap, Property, PrototypedFrom, Range, ReadOnly, Set, Str, String, Tuple, Type, Union,
+                        Trait, TraitError)
 from traits.ctrait import CTrait  # noqa: E402
 
 
 class H(HasTraits):
     v = Int(3)
+    w = Str("w")
+    p_q = Int(1)
+    inst = Instance(HasTraits)
 
 
 def f0():
@@ -30,90 +38,110 @@ def f0():
 
 
 def f1(a):
-    return a
+    return getattr(a, "__dict__", {}).get("_pv", 1)
+
+
+def f2(a, b):
+    a.__dict__["_pv"] = b
 
 
 def f3(a, b, c):
-    return c
+    a.__dict__["_pv"] = c
 
 
-VALS = [0, 1, -1, 5, 1.5, "a", None, (1, 2), [1], {"a": 1}, int, str, len, f1, (int,), (None, int), (int, None, str),
-        (1,), ((1,),), ((20,), (21,)), ((1, int),), 2 ** 70, True, (), ((),), "abc", b"x", H, (H,), ((0, int), (5, (1, 2)))]
+VALS = [0, 1, -1, 5, 1.5, float("nan"), "a", "ab", "abc", None, (1, 2), (1, "x"), [1], [1, "x"], {"a": 1}, {1}, int, str,
+        len, 2 ** 70, True, (), b"x", 3 + 4j, H, "LEAF"]
 
 
-def exercise(ct, progress, desc):
+def scalar(rnd):
+    return rnd.choice([
+        lambda: Int(rnd.choice([0, 5])), lambda: Float(), lambda: Str(), lambda: Bool(), lambda: Bytes(),
+        lambda: Complex(), lambda: CInt(), lambda: CFloat(), lambda: CStr(), lambda: Any(),
+        lambda: Range(rnd.choice([0, 0.0, None]), rnd.choice([10, 9.5, None]), exclude_low=rnd.random() < 0.3,
+                      exclude_high=rnd.random() < 0.3) if rnd.random() < 0.9 else Range(0, "v"),
+        lambda: Enum(*rnd.sample([1, 2, "a", None, (1, 2), 1.5], rnd.randint(1, 4))),
+        lambda: Map({"a": 1, "abc": 2}), lambda: PrefixList(["abc", "xyz"]), lambda: PrefixMap({"abc": 1, "abd": 2}),
+        lambda: String(minlen=rnd.randint(0, 2), maxlen=rnd.randint(2, 5)),
+        lambda: Instance(H, allow_none=rnd.random() < 0.5), lambda: Instance(H, ()), lambda: Instance("H", module="__main__"),
+        lambda: Instance(H, adapt=rnd.choice(["no", "yes", "default"])), lambda: Type(H), lambda: Type(),
+        lambda: Callable(allow_none=rnd.random() < 0.5), lambda: Expression(), lambda: ReadOnly(), lambda: Constant(5),
+        lambda: Event(), lambda: Event(Int()),
+    ])()
+
+
+def definition(rnd, depth=0):
+    x = rnd.random()
+    if depth > 2 or x < 0.45:
+        return scalar(rnd)
+    sub = lambda: definition(rnd, depth + 1)      # noqa: E731
+    return rnd.choice([
+        lambda: Tuple(*[sub() for _ in range(rnd.randint(0, 3))]),
+        lambda: List(sub(), minlen=rnd.randint(0, 1), maxlen=rnd.randint(1, 4)),
+        lambda: Dict(rnd.choice([Str(), Int(), Any()]), sub()), lambda: Set(rnd.choice([Int(), Str(), Any()])),
+        lambda: Either(*[sub() for _ in range(rnd.randint(1, 3))]),
+        lambda: Union(*[sub() for _ in range(rnd.randint(1, 3))]),
+        lambda: Trait(rnd.choice([0, "a", None]), *[sub() for _ in range(rnd.randint(1, 2))]),
+        lambda: Property(fget=rnd.choice([f0, f1]), fset=rnd.choice([f2, f3])),
+        lambda: Property(fget=f1, fset=f2, trait=scalar(rnd)),
+        lambda: Property(fget=f1),
+        lambda: DelegatesTo("inst", prefix=rnd.choice(["v", "w"])), lambda: PrototypedFrom("inst"),
+        lambda: Delegate("inst", rnd.choice(["p_*", "*", "v"]), modify=rnd.random() < 0.5),
+    ])()
+
+
+def exercise(ct):
     o = H()
-    for v in VALS[:24]:
+    o.inst = H()
+    for v in VALS:
+        v = H() if v == "LEAF" else v
         try:
-            ct.validate(o, "x", v)
+            ct.validate(o, "q", v)
+        except Exception:
+            pass
+    for f in (lambda: ct.default_value_for(o, "q"), lambda: ct.default_value(), lambda: ct.__getstate__()):
+        try:
+            f()
         except Exception:
             pass
     try:
-        ct.default_value_for(o, "x")
+        c2 = CTrait(0)
+        c2.clone(ct)
     except Exception:
         pass
     try:
         o.add_trait("q", ct)
     except Exception:
         return
-    for v in VALS[:12]:
+    for v in VALS[:14]:
         for f in (lambda: setattr(o, "q", v), lambda: getattr(o, "q"), lambda: delattr(o, "q")):
             try:
                 f()
             except Exception:
                 pass
-    try:
-        ct.__getstate__()
-    except Exception:
-        pass
 
 
 def main():
     p = dlib.load()
     rnd = random.Random(p["seed"])
-    fam = p["family"]
     prog = open(p["progress"], "w")
     accepted = 0
     for trial in range(p["n"]):
-        ct = CTrait(0)
-        if fam.startswith("validate"):
-            kind = int(fam[8:])
-            desc = (kind,) + tuple(rnd.choice(VALS) for _ in range(rnd.randint(0, 3)))
-            call = lambda: ct.set_validate(desc)          # noqa: E731
-        elif fam == "default":
-            desc = (rnd.randint(-2, 12), rnd.choice(VALS))
-            call = lambda: ct.set_default_value(*desc)    # noqa: E731
-        elif fam == "property":
-            desc = (rnd.choice([f0, f1, f3, 5, None]), rnd.randint(-1, 5), rnd.choice([f0, f1, f3, None]),
-                    rnd.randint(-1, 5), rnd.choice([f1, f3, None, 5]), rnd.randint(-1, 5))
-            call = lambda: ct._set_property(*desc)        # noqa: E731
-        elif fam == "delegate":
-            desc = (rnd.choice(["v", "", "zz", 5]), rnd.choice(["v", "", "p_", 5]), rnd.randint(-3, 6), rnd.choice([0, 1]))
-            call = lambda: ct.delegate(*desc)             # noqa: E731
-        elif fam == "kind":
-            desc = (rnd.randint(-3, 12),)
-
-            def call():
-                c2 = CTrait(*desc)
-                c2.__dict__ = {}
-                exercise(c2, prog, desc)
-        else:
-            desc = (rnd.choice(["comparison_mode", "post_setattr", "handler", "is_mapped", "modify_delegate",
-                                "setattr_original_value", "__dict__"]), rnd.choice(VALS))
-            call = lambda: setattr(ct, desc[0], desc[1])  # noqa: E731
-        if desc[0] in p.get("skip", []):
+        state = rnd.getstate()
+        try:
+            d = definition(rnd)
+            K = type("K", (HasTraits,), {"x": d})
+            ct = K.__base_traits__["x"]
+        except Exception:
+            continue
+        name = type(getattr(ct, "handler", None)).__name__
+        if name in p.get("skip", []):
             continue
         prog.seek(0)
         prog.truncate()
-        prog.write("%s\n%r\n" % (desc[0], desc))
+        prog.write("%s\n%s trial %d of seed %d: %r\n" % (name, name, trial, p["seed"], getattr(ct, "handler", None)))
         prog.flush()
-        try:
-            call()
-        except Exception:
-            continue
         accepted += 1
-        ct.__dict__ = {} if not isinstance(getattr(ct, "__dict__", None), dict) else ct.__dict__
-        exercise(ct, prog, desc)
+        exercise(ct)
     prog.close()
     dlib.dump(dict(accepted=accepted, tried=p["n"]))
 
